@@ -39,7 +39,8 @@ FLOAT_BITS = sorted(set([
 ]))
 
 STRINGS = ["", "a", "b", "ab", "abc", "A", "ä", "äb", "bä", "€", "𝄞", "İ", "ß", "é", " a ", "　x ",
-           "//", "/*", "*/", "\"", "\\", "\n", "1", "true", "Straße", "ǅ"]
+           "//", "/*", "*/", "\"", "\\", "\n", "1", "true", "Straße", "ǅ",
+           "ΟΔΟΣ", "Σ", "ΑΣ ΑΣ", "Привет", "a b  c", "\ta\u00a0", "ﬁ", "ŉ"]
 
 BOOLS = [True, False]
 
